@@ -650,7 +650,7 @@ def taint(F, rep, lf):
                 if why is None and p[2] == "loop":
                     why = _loop_sanitiser(F, fb, term[2])
                 # a parameter printed raw is tainted unless every caller passes sanitised / constant-only text
-                rooted_param = any(isinstance(x, tuple) and x and x[0] == "param" for x in subterms(term))
+                rooted_param = any(isinstance(x, tuple) and x and x[0] == "param" for x in subterms(term)) or p[2] == "loop"   # loop-built text is unknown text
                 ok = why is not None or not rooted_param
                 rep.ob("R4", f"{fb.short}:comment-text", ok,
                        f"comment text passes through {why}" if why else
